@@ -171,3 +171,13 @@ M("svgd-relative-current-point-stale", ["C07"], "relative output: current point 
 M("cubic-d-smooth-writes-control1", ["C07"], "S written with control1", ('                return "S %s %s" % (self.control2, self.end)', '                return "S %s %s" % (self.control1, self.end)'))
 M("quad-smooth-after-cubic", ["C07"], "T considered smooth after a cubic whose control2 it reflects", ("        if isinstance(previous, QuadraticBezier):\n            return self.start == previous.end and (self.control - self.start) == (\n                previous.end - previous.control\n            )", "        if isinstance(previous, (QuadraticBezier, CubicBezier)):\n            pc = previous.control if isinstance(previous, QuadraticBezier) else previous.control2\n            return self.start == previous.end and (self.control - self.start) == (\n                previous.end - pc\n            )"))
 M("smooth-test-ignores-start", ["C07"], "smooth test no longer requires the control to reflect", ("            return self.start == previous.end and (self.control1 - self.start) == (\n                previous.end - previous.control2\n            )", "            return self.start == previous.end"))
+
+# ---- shapes vs equivalent paths (C06) --------------------------------------------------------------------
+M("rect-clamp-uses-width-for-ry", ["C06"], "ry clamped against half the width", ("                ry = min(ry, self.height / 2.0)", "                ry = min(ry, self.width / 2.0)"))
+M("rect-auto-rx-not-copied", ["C06"], "ry given, rx omitted: rx stays 0", ("        elif ry is not None and rx is None:\n            ry = Length(ry).value(relative_length=self.height)\n            rx = ry", "        elif ry is not None and rx is None:\n            ry = Length(ry).value(relative_length=self.height)\n            rx = 0"))
+M("rect-corner-order", ["C06"], "third corner arc ends at the wrong corner point", ("                Arc(\n                    (x + rx, y + height),\n                    (x, y + height - ry),", "                Arc(\n                    (x + rx, y + height),\n                    (x, y + height - rx),"))
+M("rect-zero-height-renders", ["C06"], "a rect of zero height still produces segments", ("        if self.is_degenerate():\n            return ()  # a computed value of zero for either dimension disables rendering.", "        if self.width == 0:\n            return ()  # a computed value of zero for either dimension disables rendering."))
+M("ellipse-start-at-top", ["C06"], "ellipse decomposition starts a quarter turn late", ("        t_start = 0\n        t_end = step_size", "        t_start = step_size\n        t_end = 2 * step_size"))
+M("polygon-no-close", ["C06"], "polygon of two points gets no close", ("        if isinstance(self, Polygon):\n            segments.append(Close(last, points[0]))", "        if isinstance(self, Polygon) and len(points) > 2:\n            segments.append(Close(last, points[0]))"))
+M("polyline-pairs-from-flat-list", ["C06"], "points given as coordinate pairs dropped when odd", ("                    self.points = list(map(Point, points))", "                    self.points = list(map(Point, points[: len(points) // 2 * 2]))"))
+M("shape-eq-ignores-arcs", ["C06"], "Shape.__eq__ compares only the first segment", ("        for s, o in zip(q._segments, p._segments):\n            if not s == o:\n                return False\n        if p.stroke_width != q.stroke_width:", "        for s, o in zip(q._segments[:1], p._segments[:1]):\n            if not s == o:\n                return False\n        if p.stroke_width != q.stroke_width:"))
